@@ -847,3 +847,110 @@ func TestReplayJSON(t *testing.T) {
 		t.Fatalf("VIOLATION reproduced: %s", v.msg)
 	}
 }
+
+// TestReadSequences: several ReadFile calls on ONE session.  The single-read oracle above
+// speaks about one call; a reader reads a dozen files in a row over the same session, and
+// what one call leaves behind (the currently selected file on the card, cached state in the
+// session) must not leak into the next: every call returns exactly the bytes of the file IT
+// asked for, or an error; "not found" only if the card said so to THIS call's SELECT; and
+// every call selects its file before reading.  Between calls the card may answer a SELECT
+// with a warning (6283: the file is selected but the library treats it as absent), with
+// "not found", or with an error status.
+func TestReadSequences(t *testing.T) {
+	evid.RapidCheck(t, 1600, 40000, func(rt *rapid.T) {
+		nFiles := rapid.IntRange(2, 4).Draw(rt, "files")
+		srv := &FileServer{FullBelow: 4}
+		var specs []fileSpec
+		for i := 0; i < nFiles; i++ {
+			fs := fileSpec{FID: uint16(0x0101 + i), SFI: byte(1 + i), Tag: []string{"61", "75", "6b", "7f61"}[i], LenOctets: 1,
+				ContentLen: rapid.SampledFrom([]int{1, 5, 30, 100, 127}).Draw(rt, "len"), Seed: uint32(rapid.IntRange(1, 1<<20).Draw(rt, "seed"))}
+			if rapid.Bool().Draw(rt, "long") {
+				fs.LenOctets, fs.ContentLen = 3, rapid.IntRange(200, 1500).Draw(rt, "longlen")
+			}
+			specs = append(specs, fs)
+			srv.Files = append(srv.Files, &File{FID: fs.FID, SFI: fs.SFI, Content: fs.bytes()})
+		}
+		srv.Policy = ChunkPolicy(rapid.IntRange(0, 3).Draw(rt, "policy"))
+		srv.Cap = rapid.IntRange(1, 300).Draw(rt, "cap")
+		x := uint32(rapid.IntRange(1, 1<<30).Draw(rt, "rseed")) | 1
+		srv.Rand = func(n int) int {
+			x = x*1664525 + 1013904223
+			return 1 + int(x>>8)%n
+		}
+		nfc := iso7816.NewNfcSession(srv)
+		alg := rapid.SampledFrom([]string{"", "", "3DES", "AES-128"}).Draw(rt, "alg")
+		if alg != "" {
+			c := mac.Cipher(alg)
+			ke := rapid.SliceOfN(rapid.Byte(), c.KeyLen(), c.KeyLen()).Draw(rt, "kenc")
+			km := rapid.SliceOfN(rapid.Byte(), c.KeyLen(), c.KeyLen()).Draw(rt, "kmac")
+			ssc := make([]byte, c.BlockLen())
+			srv.SM = sm.New(c, ke, km, ssc)
+			lib, err := iso7816.NewSecureMessaging(libAlg(c), bytes.Clone(ke), bytes.Clone(km))
+			if err == nil {
+				err = lib.SetSSC(ssc)
+			}
+			if err != nil {
+				evid.Infra(rt, "library session: %v", err)
+			}
+			nfc.SetSecureMessaging(lib)
+		}
+		nfc.SetMaxLe(rapid.SampledFrom([]int{16, 100, 256}).Draw(rt, "maxLe"))
+		calls := rapid.IntRange(2, 8).Draw(rt, "calls")
+		var history []string
+		for k := 0; k < calls; k++ {
+			i := rapid.IntRange(0, nFiles-1).Draw(rt, "which")
+			fs := specs[i]
+			sw := rapid.SampledFrom([]uint16{0x9000, 0x9000, 0x9000, 0x9000, 0x6283, 0x6A82, 0x6982, 0x6282}).Draw(rt, "selectSW")
+			srv.SelectSW = map[uint16]uint16{}
+			if sw != 0x9000 {
+				srv.SelectSW[fs.FID] = sw
+			}
+			logBefore := len(srv.Log)
+			var data []byte
+			var err error
+			var panicked any
+			func() {
+				defer func() { panicked = recover() }()
+				data, err = nfc.ReadFile(fs.FID)
+			}()
+			history = append(history, fmt.Sprintf("ReadFile(%04x) select=%04x -> %d bytes err=%v", fs.FID, sw, len(data), err != nil))
+			rep := map[string]any{"files": specs, "alg": alg, "history": history, "policy": srv.Policy.String()}
+			if panicked != nil {
+				evid.Fail(rt, "sequence", rep, "call %d panicked: %v", k+1, panicked)
+			}
+			evs := srv.Log[logBefore:]
+			if len(evs) == 0 || evs[0].Kind != "select" || evs[0].FID != fs.FID {
+				first := "no command at all"
+				if len(evs) > 0 {
+					first = fmt.Sprintf("%s %x", evs[0].Kind, evs[0].Raw)
+				}
+				evid.Fail(rt, "sequence", rep, "call %d, ReadFile(%04x), did not start with SELECT of that file (first command: %s)", k+1, fs.FID, first)
+			}
+			switch {
+			case err != nil:
+				evid.Count("sequence-call-error", 1)
+			case data == nil:
+				if evs[0].SW != 0x6A82 && evs[0].SW != 0x6283 {
+					evid.Fail(rt, "sequence", rep, "call %d reports 'not found' although the card answered %04x to its SELECT", k+1, evs[0].SW)
+				}
+				evid.Count("sequence-call-not-found", 1)
+			default:
+				if !bytes.Equal(data, fs.bytes()) {
+					whose := "no file of the card"
+					for _, o := range specs {
+						if bytes.Equal(data, o.bytes()) {
+							whose = fmt.Sprintf("file %04x", o.FID)
+						}
+					}
+					evid.Fail(rt, "sequence", rep, "call %d, ReadFile(%04x), returned %d bytes that are not that file's %d bytes (they are %s)", k+1, fs.FID, len(data), len(fs.bytes()), whose)
+				}
+				evid.Count("sequence-call-exact", 1)
+			}
+			if srv.SM != nil && err != nil {
+				// the card drops the session after an unauthenticated command; later calls can only fail - stop here
+				break
+			}
+		}
+		evid.Case(fmt.Sprintf("sequence/%s/n%d", map[bool]string{true: "sm", false: "plain"}[alg != ""], calls), true, fmt.Sprint(history), map[string]any{"history": history})
+	})
+}
